@@ -211,9 +211,17 @@ pub fn init_twins(es: &[Entry]) {
     TWIN_TABLE.get_or_init(|| {
         let mut key: Vec<(u64, TypeId)> = Vec::new();
         for e in es {
-            let mut r = Registry::new();
-            let id = r.register_type(&(e.meta)()).id;
-            let reg: PortableRegistry = r.into();
+            // (registration may panic on a broken tree: such entries have no twins; the checks proper will report it)
+            let m = (e.meta)();
+            let Ok((id, reg)) = guard(|| {
+                let mut r = Registry::new();
+                let id = r.register_type(&m).id;
+                let reg: PortableRegistry = r.into();
+                (id, reg)
+            }) else {
+                key.push((key.len() as u64 ^ 0xbeef_0000_0000, (e.did)()));
+                continue;
+            };
             // (a broken tree may not even resolve the id it just handed out: such entries simply have no twins)
             match reg.resolve(id).cloned() {
                 Some(mut t) => {
@@ -744,6 +752,32 @@ pub fn run(a: &Args) -> Report {
                         rep.count("replays_compared", 1);
                     }
                     _ => rep.inconclusive(format!("replay failed in case {}", i)),
+                }
+                // ... and on a fresh thread (nothing a previous registry left behind on this thread may matter)
+                if i % 8 == 0 {
+                    let fresh = std::thread::scope(|sc| {
+                        std::thread::Builder::new()
+                            .stack_size(256 << 20)
+                            .spawn_scoped(sc, || {
+                                let mut scratch = Report::default();
+                                guard(|| execute(&es, &ops, false, &mut scratch, "C11").map(|ex2| {
+                                    let r2: PortableRegistry = ex2.registry.into();
+                                    refcodec::encode(&r2)
+                                }))
+                            })
+                            .expect("spawn")
+                            .join()
+                    });
+                    match fresh {
+                        Ok(Ok(Ok(b2))) => {
+                            if b2 != bytes {
+                                rep.violation("C11/replay-differs-on-fresh-thread", "replaying the same history on a fresh thread gives a different registry".into(), case());
+                                return;
+                            }
+                            rep.count("fresh_thread_replays_compared", 1);
+                        }
+                        _ => rep.inconclusive(format!("fresh-thread replay failed in case {}", i)),
+                    }
                 }
                 // (c) permutation of the roots => isomorphic registry
                 let root_idx: Vec<usize> = ops.iter().flat_map(|o| match o {
